@@ -195,6 +195,54 @@ pub fn part_c14_regs(tier: Tier) -> Part {
     part
 }
 
+pub fn part_c18(tier: Tier) -> Part {
+    let mut part = Part::new("e2e-load-address-independence");
+    let cfg = ExploreCfg {
+        prop: "C18",
+        depth: if tier == Tier::Quick { 4 } else { 5 },
+        oracles: oracles_for("C18"),
+        steps: false,
+        restart: true,
+        failing: false,
+        remove_by_num: false,
+        bp_only_before_start: false,
+        continue_after_start: true,
+        watches: 0,
+        terminals: false,
+        wall: wall_cap(tier, 50, 2400),
+    };
+    // the same programs linked as classic (ET_EXEC) and as position independent executables:
+    // every address-based answer must be right for both
+    let mut cfgs = vec![];
+    for pie in [false, true] {
+        cfgs.push(Config { toolchain: "1.89".into(), opt: 0, dwarf: 4, pie });
+        if tier == Tier::Thorough {
+            cfgs.push(Config { toolchain: "stable".into(), opt: 1, dwarf: 5, pie });
+        }
+    }
+    let bodies = match tier {
+        Tier::Quick => vec![corpus::quick_bodies()[1].clone()],
+        Tier::Thorough => corpus::quick_bodies(),
+    };
+    let progs = match corpus::build_many(&bodies, &cfgs).and_then(prepare) {
+        Ok(p) => p,
+        Err(e) => {
+            part.violate("C18:machinery:corpus", e, json!({}));
+            part.exhaustive = false;
+            return part;
+        }
+    };
+    part.bounds = json!({"programs": progs.len(), "link_modes": ["non-PIE (ET_EXEC, linked at 0x200000/0x400000)", "PIE"], "depth": cfg.depth, "alphabet": "start/continue, restart, add/remove of 3 breakpoints (address, next-instruction address, file:line or function)"});
+    part.rule = "the C01 exploration (breakpoint projection against the reference trace), the text-patch invariant and the backtrace oracle, on the same programs linked non-PIE and PIE: breakpoints by function / line / address, stop addresses, source lookup and unwinding must be right wherever the object is loaded".into();
+    let deadline = Instant::now() + cfg.wall;
+    for p in &progs {
+        let cands = candidates(p, if tier == Tier::Quick { 2 } else { 3 });
+        explore_program(p, &cands, &cfg, &mut part, deadline);
+    }
+    part.traces_validated = part.transitions;
+    part
+}
+
 pub fn part_c10(tier: Tier) -> Part {
     use crate::corpus::Stmt;
     let mut part = Part::new("e2e-signals-self-raised");
